@@ -9,6 +9,40 @@ BASELINE_OFF = ("cd /repo && env -u DOCUMENTTEMPLATE_VERIF /venv/bin/python -m p
                 "-p no:cacheprovider --timeout=900 --continue-on-collection-errors")
 
 CHECKS = {
+    'C01': dict(engine='DTParse',
+        technique='TLA+ machine of the DTML compiler (DTScan + DTParse: character-level tag recognisers, block matcher, skip_eol) '
+                  'checked by TLC; every behaviour replayed into the real compiler and renderer; scanner searches recorded from the '
+                  'real code compared with the machine\'s',
+        text='The machine cuts every source into literal slices and tags (invariant Tiling: the spans of every parsed text partition '
+             'it in order and each literal is the source slice itself; skip_eol is the only place where characters are dropped) and '
+             'renders the compiled normal form for plain namespaces; TLC explores all near-tag fragment sequences of the tier, block '
+             'skeletons in all four spellings with every line-end variant after every block tag, pairs and every split point; the '
+             'real class must return the machine\'s text, and must compose wherever the machine\'s renderings compose.',
+        note='Namespaces hold plain ASCII text, int lists and an attribute-less object; composition is claimed exactly where the '
+             'machine composes (no tag and no skipped line end straddles the junction).',
+        ref='DESIGN.md section 4 C01'),
+    'C06': dict(engine='DTParse',
+        technique='TLA+ machine of the DTML compiler (DTScan + DTParse: tag recognisers, parse / parse_block / parse_close, '
+                  'parse_params, name_param, every tag constructor, parse_error) checked by TLC; every behaviour replayed into the real '
+                  'compiler; CPU time of pump families measured',
+        text='TLC checks ErrLocated (a ParseError names a tag of the source and the line of its first character), OnlyTwoErrors, '
+             'FrameProgress (every loop consumes input: termination) on all item sequences, attribute lists, single mutations, '
+             'truncations and random soups of the tier; the real compiler must accept / reject the same sources with the same '
+             'exception class, named tag and line, and may raise nothing but ParseError / SyntaxError on any input; pump families '
+             'bound the compile time by a cubic envelope.',
+        note='Which expression texts are invalid Python is supplied by ast.parse; accept / reject on random soups is recorded as '
+             'drift, not claimed; known finding F4 (RecursionError beyond ~300 nested blocks).',
+        ref='DESIGN.md section 4 C06'),
+    'C07': dict(engine='DTParse',
+        technique='TLA+ machine of the DTML compiler (DTScan + DTParse) compiling every spelling of one abstract template with the '
+                  'recogniser of its syntax, invariant SameProgram checked by TLC; each spelling compiled and rendered by the real '
+                  'classes and compared with the machine\'s program and pairwise',
+        text='One case is one abstract template printed in 4-7 spellings (<dtml->, <!--#-->, with /tag and endtag closers, %()[ ]), '
+             'entities, varied white space, quoting, attribute case, end-tag arguments); TLC checks that all spellings compile to one '
+             'normal form; the normalised _v_blocks of every real compilation must be that normal form, and renderings under three '
+             'namespaces with logging callables must agree pairwise in text / exception and call log.',
+        note='Random abstract templates over every tag and option plus each option alone; expressions from a pool printable in all syntaxes.',
+        ref='DESIGN.md section 4 C07'),
     'C11': dict(
         engine='DTBatch',
         technique='TLA+ model (DTBatch) checked by TLC; exported behaviours replayed into dtml-in; '
